@@ -104,7 +104,9 @@ pub fn run_all(out: &str, seed: u64, profile: &str, thorough: bool) {
 
     // block scenarios: (K, T); odd symbol sizes included
     let mut blocks: Vec<(usize, usize)> = vec![(1, 1), (2, 3), (5, 7), (10, 4), (13, 64), (19, 65), (26, 1), (31, 33), (49, 8), (60, 16),
-                                               (101, 5), (250, 3), (257, 9), (1000, 2)];
+                                               (101, 5), (250, 3), (257, 9), (1000, 2),
+                                               // two sizes whose Table 2 rows share the systematic index J (state shared between blocks of one process)
+                                               (55, 2), (372, 1)];
     if thorough {
         blocks.extend([(3, 129), (7, 255), (40, 13), (75, 31), (127, 2), (500, 17)]);
         if profile.starts_with("release") {
